@@ -235,6 +235,96 @@ def cond_format_float (floats, use_e, result):
                 )
 # end def cond_format_float
 
+# ------------------------------------------------------------ frozen state
+
+import hashlib
+
+def _dig (v):
+    a = np.asarray (v)
+    if a.dtype == object:
+        return None
+    return (a.shape, str (a.dtype), hashlib.blake2b (np.ascontiguousarray (a).tobytes (), digest_size = 8).hexdigest ())
+
+def state_digest (m, results = False, extra = ()):
+    """ digests of what a field request or a printing call has to leave alone: the cached arrays of the pulse
+        container, segments and pulses of every object, matrix, right-hand side, currents, sources, loads, media;
+        with results = True also the field tables of the last requests; extra: further objects (the caller's
+        Angle objects) by their attributes """
+    d = {}
+    def put (k, v):
+        try:
+            x = _dig (v)
+        except Exception:
+            x = None
+        if x is not None:
+            d [k] = x
+    def attrs (prefix, o):
+        for k, v in list (vars (o).items ()):
+            if k in ('zint', 'zint_key', 'zins'):
+                continue        # per-frequency caches of the distributed loads (keyed by the frequency they were computed for)
+            if isinstance (v, (np.ndarray, float, int, complex, np.floating, np.integer, np.complexfloating, bool, tuple)):
+                put (prefix + k, v)
+    try:
+        attrs ('pulses.', m.pulses)
+        for gi, g in enumerate (m.geo):
+            attrs ('geo%d.' % gi, g)
+            sg = getattr (g, 'segments', None) or []
+            if sg:
+                # (segments and pulses hold views of / are mirrored in the arrays digested here)
+                put ('geo%d.nodes' % gi, [sg [0].p1] + [s.p2 for s in sg])
+                put ('geo%d.seglen' % gi, [s.seg_len for s in sg])
+        for k in ('Z', 'rhs', 'current', 'f', 'w', 'srm', 'power'):
+            v = getattr (m, k, None)
+            if v is not None:
+                put ('m.' + k, v)
+        for i, s in enumerate (m.sources):
+            put ('src%d' % i, [complex (s.voltage).real, complex (s.voltage).imag, s.idx])
+        for i, l in enumerate (m.loads):
+            put ('load%d' % i, [p.idx for p in l.pulses])
+            attrs ('load%d.' % i, l)
+        for i, md in enumerate (m.media or []):
+            attrs ('medium%d.' % i, md)
+            put ('medium%d.boundary' % i, [ord (c) for c in str (getattr (md, 'boundary', ''))])
+        if results:
+            ff = getattr (m, 'far_field', None)
+            if ff is not None:
+                attrs ('far_field.', ff)
+            for k in ('e_field', 'h_field', 'near_field_coord'):
+                v = getattr (m, k, None)
+                if v is not None and len (v):
+                    put ('m.' + k, np.asarray (v))
+        for i, o in enumerate (extra):
+            attrs ('arg%d.' % i, o)
+    except Exception:
+        EVENTS ['frozen-state.digest-failed'] += 1
+        return None
+    return d
+# end def state_digest
+
+def frozen (name, results):
+    """ wrapper factory: the state digested before the call is found unchanged after it (new cached entries may
+        appear, existing ones may not change). Owner: C14 - a request or a printing call that alters state changes
+        what later calls on the same object return. """
+    def deco (orig):
+        @functools.wraps (orig)
+        def w (self, *a, **kw):
+            extra  = [x for x in a if x.__class__.__name__ == 'Angle'] + [x for x in kw.values () if x.__class__.__name__ == 'Angle']
+            before = state_digest (self, results, extra)
+            r = orig (self, *a, **kw)
+            if before is not None:
+                after = state_digest (self, results, extra)
+                EVALS ['frozen-state.' + name] += 1
+                if after is not None:
+                    changed = sorted (k for k in before if k in after and after [k] != before [k]) + sorted (k for k in before if k not in after)
+                    if changed:
+                        RECORD.append (dict ( owner = 'C14', contract = 'frozen-state.' + name
+                                            , msg = '%s changed state it has to leave alone: %s' % (name, ', '.join (changed [:6]))
+                                            , measured = len (changed), allowed = 0))
+            return r
+        return w
+    return deco
+# end def frozen
+
 # -------------------------------------------------------------- installation
 
 def attach (cls, name, cond, params, have_ic):
@@ -357,6 +447,13 @@ def install ():
             EVENTS ['psi.unclassified'] += 1
         return orig_psi (self, vec2, vecv, k, scale, pidx, exact = exact, fvs = fvs)
     M.psi = psi
+    # frozen state: field requests leave the solver's state alone, printing leaves everything alone
+    for name, res in ( ('compute_far_field', False), ('compute_near_field', False), ('as_mininec', True), ('as_cmdline', True), ('as_basic_input', True)
+                     , ('currents_as_mininec', True), ('source_data_as_mininec', True), ('loads_as_mininec', True), ('wires_as_mininec', True)
+                     , ('far_field_as_mininec', True), ('far_field_absolute_as_mininec', True), ('near_field_e_as_mininec', True), ('near_field_h_as_mininec', True)
+                     , ('frq_dependent_as_mininec', True), ('frq_independent_as_mininec', True)):
+        if hasattr (M, name):
+            setattr (M, name, frozen (name, res) (getattr (M, name)))
     for name in ('compute_impedance_matrix', 'compute_rhs', 'as_mininec', 'as_cmdline', 'as_basic_input'):
         orig = getattr (M, name)
         def mk (orig, name):
